@@ -751,6 +751,9 @@ def do_replay(run, path):
     case = r["case"]
     if case.get("tdc"):
         f = tdc_oracle(run.rng, case["E0"], case["particles"])
+    elif "frac" not in case:      # the stored input of finding F70 (design particle of a bend with angle < -pi)
+        obs = f70_probe(case)
+        f = {"what": "the design particle of the bend does not come out at the origin (F70)", "observed": obs} if obs is not None else None
     else:
         f = run_case(run, case)
     print("replay:", "property holds on this input" if not f else f"property FAILS on this input: {json.dumps(f)[:800]}")
